@@ -159,9 +159,34 @@ static void d_nums(C4_Nums_table_t t)
     { C4_Lim_vec_t v = C4_Nums_vlim(t); D(" vlim="); if (!v) D("~"); else { D("["); for (i = 0; i < C4_Lim_vec_len(v); ++i) d_lim(C4_Lim_vec_at(v, i)); D("]"); } }
     D(" e="); P(C4_Nums_e_is_present(t)); D("%d", C4_Nums_e(t));
     { C4_Neg_vec_t v = C4_Nums_ve(t); D(" ve="); if (!v) D("~"); else { D("["); for (i = 0; i < C4_Neg_vec_len(v); ++i) D("%d,", C4_Neg_vec_at(v, i)); D("]"); } }
+    D(" d="); P(C4_Nums_d_is_present(t)); d_f64(C4_Nums_d(t)); D(" f="); P(C4_Nums_f_is_present(t)); d_f32(C4_Nums_f(t));
+    { flatbuffers_double_vec_t v = C4_Nums_vd(t); D(" vd="); if (!v) D("~"); else { D("["); for (i = 0; i < flatbuffers_double_vec_len(v); ++i) { d_f64(flatbuffers_double_vec_at(v, i)); D(","); } D("]"); } }
+    { flatbuffers_float_vec_t v = C4_Nums_vf(t); D(" vf="); if (!v) D("~"); else { D("["); for (i = 0; i < flatbuffers_float_vec_len(v); ++i) { d_f32(flatbuffers_float_vec_at(v, i)); D(","); } D("]"); } }
     D(" full="); P(C4_Nums_full_is_present(t)); D("%u", C4_Nums_full(t));
     { C4_Full_vec_t v = C4_Nums_vfull(t); D(" vfull="); if (!v) D("~"); else { D("["); for (i = 0; i < C4_Full_vec_len(v); ++i) D("%u,", C4_Full_vec_at(v, i)); D("]"); } }
     D("}");
+}
+static void d_node(C4_Node_table_t t, int depth);
+static void d_tree(C4_Tree_union_type_t type, flatbuffers_generic_t v, int depth)
+{
+    D("U%u:", type);
+    switch (type) {
+    case C4_Tree_Node: d_node((C4_Node_table_t)v, depth + 1); break;
+    case C4_Tree_Leaf: d_leaf((C4_Leaf_table_t)v); break;
+    case C4_Tree_Other: d_other((C4_Other_table_t)v); break;
+    default: D(v ? "?" : "~"); break;
+    }
+}
+static void d_node(C4_Node_table_t t, int depth)
+{
+    size_t i; C4_Tree_union_vec_t uv;
+    if (!t) { D("~"); return; }
+    if (depth > 300) { D("DEEP"); return; }
+    D("Node{name="); d_str(C4_Node_name(t)); D(" kids=");
+    uv = C4_Node_kids_union(t);
+    if (!uv.type && !uv.value) D("~"); else { D("["); for (i = 0; i < C4_Tree_union_vec_len(uv); ++i) { C4_Tree_union_t u = C4_Tree_union_vec_at(uv, i); d_tree(u.type, u.value, depth); D(","); } D("]"); }
+    D(" single="); d_tree(C4_Node_single_type(t), C4_Node_single(t), depth);
+    D(" n="); P(C4_Node_n_is_present(t)); D("%d}", C4_Node_n(t));
 }
 #define SCALAR(name, fmt, cast) do { D(" " #name "="); P(C4_Root_ ## name ## _is_present(t)); D(fmt, (cast)C4_Root_ ## name(t)); } while (0)
 #define BYTEVEC(name) do { flatbuffers_uint8_vec_t v = C4_Root_ ## name(t); D(" " #name "="); if (!v) D("~"); else { D("b%u:", (unsigned)flatbuffers_uint8_vec_len(v)); d_bytes(v, flatbuffers_uint8_vec_len(v)); } } while (0)
@@ -195,6 +220,7 @@ static void d_root(C4_Root_table_t t)
     D(" nest64="); if (!C4_Root_nest64(t)) D("~"); else d_sub(C4_Root_nest64_as_root(t));
     D(" other="); d_other(C4_Root_other(t));
     D(" any2="); d_union(C4_Root_any2_type(t), C4_Root_any2(t));
+    D(" rec="); d_rec(C4_Root_rec(t), 0);
     { C4_Fix_vec_t v = C4_Root_vfix(t); D(" vfix="); if (!v) D("~"); else { D("["); for (i = 0; i < C4_Fix_vec_len(v); ++i) { d_fix(C4_Fix_vec_at(v, i)); D(","); } D("]"); } }
     D("}");
 }
@@ -212,6 +238,7 @@ static struct root roots[] = {
     { "Pt", C4_Pt_parse_json_as_root, C4_Pt_print_json_as_root, C4_Pt_verify_as_root_with_identifier, 5 },
     { "Fix", C4_Fix_parse_json_as_root, C4_Fix_print_json_as_root, C4_Fix_verify_as_root_with_identifier, 6 },
     { "Nums", C4_Nums_parse_json_as_root, C4_Nums_print_json_as_root, C4_Nums_verify_as_root_with_identifier, 7 },
+    { "Node", C4_Node_parse_json_as_root, C4_Node_print_json_as_root, C4_Node_verify_as_root_with_identifier, 8 },
     { 0, 0, 0, 0, 0 }
 };
 static char *dump_buffer(struct root *r, const void *buf, int presence)
@@ -226,6 +253,7 @@ static char *dump_buffer(struct root *r, const void *buf, int presence)
     case 5: d_pt(C4_Pt_as_root(buf)); break;
     case 6: d_fix(C4_Fix_as_root(buf)); break;
     case 7: d_nums(C4_Nums_as_root(buf)); break;
+    case 8: d_node(C4_Node_as_root(buf), 0); break;
     }
     return strdup(dbuf);
 }
